@@ -245,6 +245,7 @@ def run(ctx):
     # requests reach the main loop in the order the watcher made them (add v1, remove, add v2 must end on the add)
     from .C13 import handoff_queue_fifo
     handoff_queue_fifo(ctx)
+    readdir_does_not_follow_links(ctx, "C14")
     # the inotify read buffer holds at least one maximal event (header + NAME_MAX + 1): otherwise read(2) fails with EINVAL for a
     # long file name, processDropInWatcher returns 1 and the OCHECK in run() aborts the daemon
     pdw = ctx.fn1("Oomd::FsDropInService::processDropInWatcher")
